@@ -124,6 +124,11 @@ func isNullPredicate(v ssa.Value) bool {
 		if o.Name() == "isNull" || o.Name() == "IsNull" {
 			return true
 		}
+		// the same predicate under any other name: a one-argument method of the module that answers the comparison of
+		// its receiver (or of its receiver masked with a constant) with a constant
+		if callee := t.Call.StaticCallee(); callee != nil && isNullPredFn(callee) {
+			return true
+		}
 		// the result of a helper that answers nil exactly for a null cell, used as `the cell is null` (guards of the
 		// form `p == nil` / `p != nil` are normalised to (p, outcome) by unNot)
 		if callee := t.Call.StaticCallee(); callee != nil && isNilIffNullHelper(callee) {
@@ -131,6 +136,47 @@ func isNullPredicate(v ssa.Value) bool {
 		}
 	}
 	return false
+}
+
+// isNullPredFn: a method of a module type over an unsigned integer (the enum code, the string pointer) with no other
+// parameter and one bool result whose only return is `recv == const` or `recv & const OP 0`.
+func isNullPredFn(fn *ssa.Function) bool {
+	if fn == nil || fn.Blocks == nil || fn.Pkg == nil || !inModule(fn.Pkg.Pkg) || fn.Signature.Recv() == nil || len(fn.Params) != 1 || fn.Signature.Results().Len() != 1 {
+		return false
+	}
+	if b, ok := fn.Signature.Results().At(0).Type().Underlying().(*types.Basic); !ok || b.Kind() != types.Bool {
+		return false
+	}
+	bt, ok := fn.Params[0].Type().Underlying().(*types.Basic)
+	if !ok || bt.Info()&types.IsUnsigned == 0 {
+		return false
+	}
+	if _, isNamed := fn.Params[0].Type().(*types.Named); !isNamed {
+		return false
+	}
+	n, good := 0, false
+	eachInstr(fn, func(in ssa.Instruction) {
+		r, ok := in.(*ssa.Return)
+		if !ok {
+			return
+		}
+		n++
+		cmp, ok := r.Results[0].(*ssa.BinOp)
+		if !ok {
+			return
+		}
+		x := cmp.X
+		if and, ok := x.(*ssa.BinOp); ok && and.Op == token.AND {
+			x = and.X
+		}
+		if _, isC := cmp.Y.(*ssa.Const); isC && x == ssa.Value(fn.Params[0]) {
+			switch cmp.Op {
+			case token.EQL, token.NEQ, token.GTR:
+				good = true
+			}
+		}
+	})
+	return n == 1 && good
 }
 
 var nilIffNullMemo = map[*ssa.Function]bool{}
